@@ -76,6 +76,19 @@ Proof.
 Qed.
 Print Assumptions C12_col_is_position_plus_extra_bytes.
 
+(* 2c. the repair proposed in repo_fixes/C12-column-character-offset (the translator regenerates
+       Gen.Total.column_converted: does the CURRENT show_error convert the byte offset?): with
+       the conversion the reported column IS the character position, inside the line for every
+       line -- and whatever byte offset is converted, the result never leaves the line *)
+Theorem C12_converted_col_in_line : forall ws k, wellformed_widths ws = true -> (k <= length ws)%nat ->
+  reported_col_gen true ws k = k /\ (reported_col_gen true ws k <= length ws)%nat.
+Proof. exact converted_col_in_line. Qed.
+Print Assumptions C12_converted_col_in_line.
+
+Theorem C12_converted_col_never_outside : forall ws b, (chars_before ws b <= length ws)%nat.
+Proof. exact converted_col_never_outside. Qed.
+Print Assumptions C12_converted_col_never_outside.
+
 (* 3. Python subscripting *)
 Theorem C12_py_index_defined_iff : forall (A : Type) (l : list A) i,
   (exists x, py_index l i = Some x) <-> (- Z.of_nat (length l) <= i < Z.of_nat (length l))%Z.
@@ -106,6 +119,15 @@ Theorem C12_boolability_guard_exact_and_repairs :
   boolab_crashes "SequenceValue" = false.
 Proof. split; [exact boolab_guard_exact|exact boolability_repaired_classes]. Qed.
 Print Assumptions C12_boolability_guard_exact_and_repairs.
+
+(* 5b. unwrapping a TypeVar can yield a union AFTER get_boolability took the outer union apart
+       (x: Optional[AnyStr]): _get_boolability_no_mvv survives iff it delegates unions back
+       (regenerated flag); on the unchanged tree it does not (known finding
+       C12-boolability-typevar-in-union, fix proposed) *)
+Theorem C12_boolability_delegation_suffices :
+  mem_str "MultiValuedValue" boolability_delegated = true -> boolab_unwrapped_union_crashes = false.
+Proof. exact delegation_suffices. Qed.
+Print Assumptions C12_boolability_delegation_suffices.
 
 (* 6. the annotation visitor of the CURRENT annotations.py raises for no expression kind;
       a raising generic_visit crashes on exactly the kinds without a method *)
